@@ -629,11 +629,13 @@ func Run(r *fw.Run) {
 			cfgs = []c14.Config{{Gran: "ops", Mode: "deviations", Bound: 3, Only: nil}, {Gran: "sync", Mode: "deviations", Bound: 2, Only: nil}, {Gran: "ops", Mode: "preemptions", Bound: 2, Only: c14.Small}, {Gran: "ops", Mode: "deviations", Bound: 4, Only: c14.Compact}}
 			per, tot = 15*time.Minute, 25*time.Minute
 		}
-		r.Bounds["schedule_scenarios"] = "fork-two-clients, fork-two-clients-empty-config, fork-one-client-two-threads (one equivocating server, the log chosen per goroutine), same-log-different-sizes, three-heads-one-client-h8"
+		r.Bounds["schedule_scenarios"] = "fork-two-clients, fork-two-clients-empty-config, fork-one-client-two-threads (one equivocating server, the log chosen per goroutine), same-log-different-sizes, three-heads-one-client-h8, three-heads-crossing-ten, and the other fork scenarios of scen.ForkScenarios"
 		r.Bounds["schedule_configurations"] = fmt.Sprint(cfgs)
 		scs := scen.ForkScenarios()
-		if t, ok := scen.Find("three-heads-one-client-h8"); ok {
-			scs = append(scs, t)
+		for _, n := range []string{"three-heads-one-client-h8", "three-heads-crossing-ten"} {
+			if t, ok := scen.Find(n); ok {
+				scs = append(scs, t)
+			}
 		}
 		c14.RunSchedules(r, scs, cfgs, per, tot)
 	}
